@@ -91,7 +91,9 @@ def runQuery (args : List Sexp) : Option String := do
   let on2 := Machine.rowsM W D P true q on1.2
   let off1 := Machine.rowsM W D P false q []
   let off2 := Machine.rowsM W D P false q off1.2
-  let l2 := s!"\tM\t{renderRows on1.1}\t{renderRows on2.1}\t{renderRows off1.1}\t{renderRows off2.1}"
+  let on3 := Machine.rowsM W D P true q on2.2
+  let off3 := Machine.rowsM W D P false q off2.2
+  let l2 := s!"\tM\t{renderRows on1.1}\t{renderRows on2.1}\t{renderRows off1.1}\t{renderRows off2.1}\t{renderRows on3.1}\t{renderRows off3.1}"
   if quant == "the" then
     let out := match runThe W D q with
       | .ok r => "ok " ++ renderRow r
